@@ -96,6 +96,10 @@ for p in props:
     if i not in T:
         continue
     eng, cat, text, note, tech = T[i]
+    if i != 'C07':
+        text += (' Plus the bounded-exhaustive sub-campaign echo-sweeps (metamorphic: the answer of every API call this property is about is unchanged by 1..65 537 of the same calls on another graph in between, agrees between a graph that was looked at earlier and one that was not after up to 65 537 identical mutations, and is unchanged by 20 kinds of foreign activity on the same thread incl. failing parses, sinks, saves, loads, merges and scripts)'
+                 + ('; generated histories also contain foreign activity between the calls (Call::Noise), a stretch during which another graph lives at the same address (Call::Masquerade), and one case in four is run again blind (no keys() around the calls, one complete look at the end).' if eng in ('gcmodel', 'twin', 'multi-config', 'digraph', 'prefixes', 'cycles') else '.'))
+        tech += '; metamorphic echo sweeps (bounded-exhaustive repeat counts, earlier looks, injected faults on the same thread)'
     checks.append({
         'property_id': i,
         'quick_cmd': f'./check {i} quick',
